@@ -46,3 +46,12 @@ package annotations
 //@ func GetServiceBasePath(service *protogen.Service) (r string)
 //@   pure
 //@   ensures r == spec.basePath(service)
+
+//@ func GetQueryParams(message *protogen.Message) (params []QueryParam)
+//@   pure
+//@   ensures sound: forall k int :: 0 <= k && k < len(params) ==> spec.isQueryParamOf(params[k], params[k].Field) && spec.hasQuery(params[k].Field) && member(message.Fields, params[k].Field)
+//@   ensures complete: forall j int :: 0 <= j && j < len(message.Fields) && spec.hasQuery(message.Fields[j]) ==> (exists k int :: 0 <= k && k < len(params) && params[k].Field == message.Fields[j])
+//@   ensures bounded: len(params) <= len(message.Fields)
+//@   loop 1 invariant forall k int :: 0 <= k && k < len(params) ==> spec.isQueryParamOf(params[k], params[k].Field) && spec.hasQuery(params[k].Field) && member(message.Fields, params[k].Field)
+//@   loop 1 invariant forall j int :: 0 <= j && j < _i && spec.hasQuery(message.Fields[j]) ==> (exists k int :: 0 <= k && k < len(params) && params[k].Field == message.Fields[j])
+//@   loop 1 invariant len(params) <= _i
